@@ -119,7 +119,7 @@ pub fn value_to_tokens(value: &ASN1Value) -> Result<String, GeneratorError> {
             .try_fold(String::from("{"), |mut acc, (field, _, val)| {
                 acc.push_str("\n\t");
                 value_to_tokens(val.value()).map(|tokenized| {
-                    acc.push_str(&format!("{field}: {tokenized},"));
+                    acc.push_str(&format!("{}: {tokenized},", to_jer_identifier(field)));
                     acc
                 })
             })
@@ -129,7 +129,7 @@ pub fn value_to_tokens(value: &ASN1Value) -> Result<String, GeneratorError> {
             }),
         ASN1Value::Boolean(b) => Ok(String::from(if *b { "true" } else { "false" })),
         ASN1Value::Integer(i) => Ok(i.to_string()),
-        ASN1Value::String(s) => Ok(format!(r#""{s}""#)),
+        ASN1Value::String(s) => Ok(format!("{s:?}")),
         ASN1Value::Real(r) => Ok(r.to_string()),
         ASN1Value::BitStringNamedBits(_) => Err(GeneratorError {
             top_level_declaration: None,
@@ -211,7 +211,7 @@ pub fn value_to_tokens(value: &ASN1Value) -> Result<String, GeneratorError> {
             integer_type: _,
             value,
         } => Ok(value.to_string()),
-        ASN1Value::LinkedCharStringValue(_, value) => Ok(format!(r#""{value}""#)),
+        ASN1Value::LinkedCharStringValue(_, value) => Ok(format!("{value:?}")),
         ASN1Value::All => Err(GeneratorError {
             details: "The value ALL cannot be rendered.".into(),
             ..Default::default()
